@@ -367,6 +367,46 @@ func runC05(c *Ctx) {
 			c05Compare(c, i, arena, "prefix", doc[:cut], c.Rng(i), c05Doc)
 		}
 	}
+	// 2b. typed destinations: the generated decoders read literals, keys, brackets and numbers with their
+	// own inline code, so every prefix of a document is decoded into the type it was generated for
+	// (the C01 case generator: random reflect-built and catalogue types with matching documents)
+	N2 := c.N(12, 400)
+	for k := 0; k < N2; k++ {
+		cs := genC01Case(c, 1<<25+k)
+		cs.prefill = false
+		doc := cs.doc
+		if len(doc) > 240 {
+			doc = doc[:240]
+		}
+		typed := func(t *c05T, data []byte) {
+			s := place.Str(data)
+			for ci, cfg := range []sonic.API{sonic.ConfigDefault, sonic.ConfigStd} {
+				dst := newDst(cs)
+				err := cfg.UnmarshalFromString(s, dst.Interface())
+				t.add(fmt.Sprintf("Unmarshal(%s)/%d", trunc(gen.Describe(cs.t), 60), ci), "%s:%s", errFull(err), h64(gen.Dump(dst.Elem())))
+			}
+			dst := newDst(cs)
+			d := decoder.NewDecoder(s)
+			d.DisallowUnknownFields()
+			d.UseNumber()
+			err := d.Decode(dst.Interface())
+			t.add("Decoder(DisallowUnknown,UseNumber)", "%s:%d:%s", errFull(err), d.Pos(), h64(gen.Dump(dst.Elem())))
+		}
+		rk := c.Rng(1<<25 + k)
+		for cut := 0; cut <= len(doc); cut++ {
+			if len(doc) > 60 && cut < len(doc)-12 && !rk.Chance(1, 4) {
+				continue
+			}
+			i, run, stop := next()
+			if stop {
+				return
+			}
+			if !run {
+				continue
+			}
+			c05Compare(c, i, arena, "typed-prefix", doc[:cut], c.Rng(i), typed)
+		}
+	}
 	// 3. seeded documents / mutations / strings / numbers of ordinary and large sizes
 	N := c.N(150, 10000)
 	opts := gen.DefaultDoc
